@@ -339,15 +339,37 @@ def run(ctx):
         ctx.ob('2c selection-compares-all-data-affecting-options', 'K9-agreement', mg.path,
                'a column is re-populated automatically whenever source and destination options differ in anything that affects stored bytes (full ColumnOptions equality, or at least preimage/uniform/ref_counted/compression/btree_index/multitree)', ok, det)
     # the per-entry callback of the index walk: the closure of migrate that builds Operation::Set
-    cl = None
-    for fb in lib.family(F, 'migration::migrate'):
-        if fb.path != 'migration::migrate' and any(s['k'] == 'assign' and s['r']['k'] == 'agg' and s['r']['ak'] == 'Adt:db::Operation::Set' for blk in fb.blocks for s in blk['s']):
-            cl = fb
+    # (the Set may be built by a helper that the closure hands key and value to: `batch.push(c, key, value)`)
+    def is_set(s):
+        return s['k'] == 'assign' and s['r']['k'] == 'agg' and s['r']['ak'] == 'Adt:db::Operation::Set'
+    cl, sets = None, []
+    mfam = lib.family(F, 'migration::migrate')
+    builders = {}
+    for fb in mfam:
+        for bi in fb.normal_blocks():
+            for s in fb.blocks[bi]['s']:
+                if is_set(s):
+                    builders.setdefault(fb.path, []).append((bi, s))
+    for fb in mfam:
+        if '{closure' not in fb.path:
+            continue
+        here = [(bi, s['r']['a'][1]) for bi, s in builders.get(fb.path, [])]
+        for bi, t in fb.calls():
+            if bi not in fb.normal_blocks():
+                continue
+            for n in sorted(set(call_names(t))):
+                hb = F.bodies.get(n)
+                if n in builders and n != fb.path and '{closure' not in n and len(builders[n]) == 1:
+                    vo = builders[n][0][1]['r']['a'][1]
+                    ps = sorted(x for x in backward_slice(hb, [op_place(vo)]).params) if op_place(vo) else []
+                    if len(ps) == 1 and len(t['a']) >= ps[0]:
+                        here.append((bi, t['a'][ps[0] - 1]))
+        if here:
+            cl, sets = fb, here
     if cl is None:
         ctx.ob('3 closure-anchor', 'anchor', 'migration::migrate', 'the per-entry closure of migrate exists', False, '')
     else:
-        sets = [(bi, s) for bi in cl.normal_blocks() for s in cl.blocks[bi]['s'] if s['k'] == 'assign' and s['r']['k'] == 'agg' and s['r']['ak'] == 'Adt:db::Operation::Set']
-        ctx.ob('3a set-anchor', 'anchor', cl.path, 'the closure builds Operation::Set', len(sets) == 1, '')
+        ctx.ob('3a set-anchor', 'anchor', cl.path, 'the closure builds Operation::Set (itself or through one helper call)', len(sets) == 1, '')
         # what is re-committed into the destination has to be acceptable for ANY destination column options (migration changes
         # them): a Set is; Reference / Dereference are refused by a column without reference counting (the count belongs to the
         # source column), the tree operations by everything but multitree columns
@@ -356,8 +378,7 @@ def run(ctx):
         ctx.ob('3e only-Set-is-recommitted', 'K9-agreement', cl.path,
                'migrate re-commits entries as Operation::Set only (the one operation every kind of destination hash column accepts; a reference count is replayed as repeated Sets)',
                not others, 'also builds %s' % [o.split('::')[-1] for o in others])
-        for bi, s in sets:
-            vop = s['r']['a'][1]
+        for bi, vop in sets:
             sl = backward_slice(cl, [op_place(vop)])
             takes = [b2 for b2, t in sl.call_sites if call_matches(t, ['std::mem::take', 'std::mem::replace'])]
             inloop = bi in cl.reaches(bi)
